@@ -1,7 +1,9 @@
 """C14 — list, map and string built-ins implement their documented semantics.
 
 (a) PROOF   GrassProofs/C14.lean about the model Grass/Builtins.lean
-(b) TIE     every generated call is evaluated by real grass (under its global name AND under its
+(b) TIE     (round 3: calls with named arguments through `blt callN`, compared under the global name, the member name and
+            the all-positional spelling; the model's dispatch tables checked against the names called here)
+            every generated call is evaluated by real grass (under its global name AND under its
             sass:list / sass:map / sass:string member name) and by the model of the code as it
             stands (`Sw.now`); the observations {inspect text, type-of, list-separator,
             is-bracketed, length} must agree
@@ -9,7 +11,8 @@
             own answers; and every call on which the model of the code before the repairs of
             K14a–K14d (`Sw.beforeFix`) differs from `Sw.now` while grass sides with the old
             behaviour is a failure of the documented semantics (a regression; no known finding
-            covers it any more).
+            covers it any more).  A named call that the documented variant (`strict`) rejects for its
+            names and grass accepts is the known finding K14e-named-unchecked.
 """
 import json
 import re
@@ -875,10 +878,14 @@ def gen_call(g, f):
     elif f == 'split':
         s = g.string()
         sep = g.substring_of(s) if x < 0.8 else g.string()
+        if r.random() < 0.12:
+            sep = qstr('')
+        if r.random() < 0.06:
+            s = qstr('')
         args = [s, sep]
         if r.random() < 0.4:
             args.append(r.choice([num(1), num(2), num(3), num(0), num(-1), NULL, lit(Fraction('1.5')), num(1, 'px'), ustr('a'),
-                                  lit(Fraction('1.000000000001'))]))
+                                  lit(Fraction('1.000000000001')), num(len(s[1])), num(len(s[1]) + 1), num(len(s[1]) + 2)]))
     else:
         raise ValueError(f)
     # wrong arity / wrongly typed first argument, now and then
@@ -1075,6 +1082,133 @@ def prefix_related(p, ks):
 
 FUNCS = list(MODULE)
 
+# ----------------------------------------------------------------------------------------------
+# named arguments
+# ----------------------------------------------------------------------------------------------
+_PARAMS = {}
+
+
+def params_of(f):
+    """documented parameter names of a modelled function, read from the Lean model (`docParams`)"""
+    if not _PARAMS:
+        outs = driver([f"blt params {g}" for g in FUNCS])
+        for g, o in zip(FUNCS, outs):
+            if not o.startswith('ok'):
+                raise RuntimeError(f"driver answered {o!r} for blt params {g}")
+            _PARAMS[g] = o.split()[1:]
+    return _PARAMS[f]
+
+
+NAMED_DEFAULTS = {('join', 'separator'): ('str', 'auto', False)}
+FLAT_ARITY = {'map-merge': 2, 'map-set': 3}
+
+
+def norm_name(k):
+    return k.replace('_', '-')
+
+
+def positional_equivalent(f, pos, named):
+    """the all-positional spelling of a call whose names are parameters not given by position (None if there is none:
+    an unknown or repeated name, a parameter given twice, a hole that no default fills, a nested map-merge/map.set)"""
+    params = params_of(f)
+    names = [norm_name(k) for k, _ in named]
+    if len(set(names)) != len(names) or any(k not in params for k in names):
+        return None
+    if f in FLAT_ARITY and len(pos) + len(named) != FLAT_ARITY[f]:
+        return None
+    idx = {params.index(k): v for k, (_, v) in zip(names, named)}
+    if min(idx) < len(pos) or len(pos) > len(params):
+        return None
+    out = list(pos)
+    for i in range(len(pos), max(idx) + 1):
+        if i in idx:
+            out.append(idx[i])
+        elif (f, params[i]) in NAMED_DEFAULTS:
+            out.append(NAMED_DEFAULTS[(f, params[i])])
+        else:
+            return None
+    return out
+
+
+def named_shape(f, pos, named):
+    params = params_of(f)
+    names = [norm_name(k) for k, _ in named]
+    tags = []
+    if any(k not in params for k in names):
+        tags.append("a name that is no parameter")
+    if any(k in params and params.index(k) < len(pos) for k in names):
+        tags.append("a parameter by position and by name")
+    if not tags:
+        idx = sorted(params.index(k) for k in names)
+        if idx != list(range(len(pos), len(pos) + len(idx))):
+            tags.append("a parameter in between left out")
+        elif [params.index(k) for k in names] != idx:
+            tags.append("named in another order")
+    if any('_' in k for k, _ in named):
+        tags.append("underscore spelling")
+    head = "all named" if not pos else f"{len(pos)} positional + {len(named)} named"
+    return head + (" / " + ", ".join(tags) if tags else "")
+
+
+def gen_named(g):
+    """a call with named arguments: a generated positional call whose tail (or all) is passed by name, in order or
+    shuffled, `_` for `-` in names now and then; a tenth each: an optional parameter in between left out, a name that is
+    no parameter, a parameter passed by position AND by name; the nested forms of map-merge / map.set with the last
+    argument(s) named (as the code resolves them)."""
+    r = g.r
+    f = r.choice(FUNCS)
+    params = params_of(f)
+    _, args = gen_call(g, f)
+    if any(is_call(a) for a in args):
+        args = [a for a in args if not is_call(a)]
+    x = r.random()
+    if f == 'map-merge' and len(args) >= 2:
+        if x < 0.8:
+            args = [args[0], args[-1]]
+        else:                                    # nested: keys by position, $map2 by name
+            return (f, args[:-1], [('map2', args[-1])])
+    if f == 'map-set' and len(args) >= 3:
+        if x < 0.75:
+            args = [args[0], args[-2], args[-1]]
+        elif x < 0.9:
+            return (f, args[:-1], [('value', args[-1])])
+        else:
+            return (f, args[:-2], [('key', args[-2]), ('value', args[-1])])
+    if f == 'slash':
+        if len(args) == 1 and x < 0.7:
+            return (f, [], [('elements', args[0])])
+        return (f, args, [('foo', num(1))] if args else [('elements', lst([num(1), num(2)]))])
+    if f == 'zip':
+        return (f, args, [(r.choice(['lists', 'foo']), lst([num(1), num(2)]))])
+    if f == 'map-remove' and x < 0.3 and len(args) >= 2:
+        return (f, args[:1], [('key', args[1])])
+    if len(args) > len(params):
+        if x < 0.25 and params:                  # more positionals than parameters, and one of them named as well
+            i = r.randrange(len(params))
+            return (f, args, [(params[i], args[i])])
+        args = args[:len(params)]
+    if not args:
+        return (f, [], [('foo', num(1))])
+    j = r.randint(0, len(args) - 1) if r.random() < 0.9 else len(args)
+    pos, named = args[:j], [(params[i], args[i]) for i in range(j, len(args))]
+    y = r.random()
+    if y < 0.10 and len(named) >= 2:
+        del named[r.randrange(len(named) - 1)]
+    elif y < 0.20:
+        named.insert(r.randint(0, len(named)), (r.choice(['foo', 'lst', 'keys', 'args', 'sep']), g.atom()))
+    elif y < 0.30 and pos:
+        i = r.randrange(len(pos))
+        named.insert(r.randint(0, len(named)), (params[i], r.choice([pos[i], g.atom()])))
+    if not named:
+        named = [('foo', num(1))]
+    if r.random() < 0.4:
+        r.shuffle(named)
+    if r.random() < 0.5:
+        named = [(k.replace('-', '_'), v) for k, v in named]
+    return (f, pos, [(k, sanitize_str(v)) for k, v in named])
+
+
+
 # minimised interesting cases; run first on every run
 CORPUS = [
     # K14a (repaired 6e994a1): append took a map / argument list as one element; must now give the documented answer
@@ -1218,6 +1352,90 @@ CORPUS = [
 ]
 
 
+CORPUS_NAMED = [
+    ('nth', [], [('list', lst([ustr('a'), ustr('b'), ustr('c')])), ('n', num(2))]),
+    ('nth', [], [('n', num(-1)), ('list', lst([ustr('a'), ustr('b'), ustr('c')]))]),
+    ('nth', [lst([ustr('a'), ustr('b')])], [('n', num(2))]),
+    ('nth', [num(2)], [('list', lst([ustr('a'), ustr('b')]))]),
+    ('join', [ustr('a'), ustr('b')], [('bracketed', TRUE)]),
+    ('join', [ustr('a'), ustr('b')], [('separator', ustr('comma'))]),
+    ('join', [], [('list2', ustr('b')), ('list1', lst([ustr('a')], 'comma')), ('bracketed', ustr('auto')), ('separator', ustr('slash'))]),
+    ('join', [ustr('a')], [('separator', ustr('comma'))]),
+    ('append', [lst([ustr('a'), ustr('b')])], [('val', ustr('c')), ('separator', ustr('slash'))]),
+    ('set-nth', [lst([ustr('a'), ustr('b')])], [('value', ustr('z')), ('n', num(-1))]),
+    ('set-nth', [lst([ustr('a'), ustr('b')])], [('value', ustr('z'))]),
+    ('index', [lst([ustr('a'), ustr('b')])], [('value', ustr('b'))]),
+    ('length', [], [('list', lst([ustr('a'), ustr('b')]))]),
+    ('length', [], [('foo', lst([ustr('a'), ustr('b')]))]),
+    ('map-get', [('map', [(ustr('a'), num(1))])], [('key', ustr('a'))]),
+    ('map-get', [], [('key', ustr('a')), ('map', ('map', [(ustr('a'), num(1))]))]),
+    ('map-get', [('map', [(ustr('a'), ('map', [(ustr('b'), num(2))]))]), ustr('a')], [('keys', ustr('b'))]),
+    ('map-has-key', [('map', [(ustr('a'), num(1))])], [('key', ustr('a'))]),
+    ('map-merge', [], [('map1', ('map', [(ustr('a'), num(1))])), ('map2', ('map', [(ustr('b'), num(2))]))]),
+    ('map-merge', [('map', [(ustr('a'), num(1))])], [('map2', ('map', [(ustr('b'), num(2))]))]),
+    ('map-merge', [('map', [(ustr('a'), num(1))]), ustr('k')], [('map2', ('map', [(ustr('b'), num(2))]))]),
+    ('map-merge', [('map', [(ustr('b'), num(2))])], [('map1', ('map', [(ustr('a'), num(1))]))]),
+    ('map-merge', [], [('map2', ('map', [(ustr('a'), num(1))]))]),
+    ('map-set', [('map', [(ustr('a'), num(1))])], [('key', ustr('b')), ('value', num(2))]),
+    ('map-set', [('map', [(ustr('a'), num(1))]), ustr('b')], [('value', num(2))]),
+    ('map-set', [('map', [(ustr('a'), num(1))]), ustr('k1'), ustr('k2')], [('value', num(2))]),
+    ('map-set', [('map', [(ustr('a'), num(1))]), ustr('k1')], [('key', ustr('k2')), ('value', num(2))]),
+    ('map-set', [('map', [(ustr('a'), num(1))])], [('key', ustr('k'))]),
+    ('map-set', [('map', [(ustr('a'), num(1))])], [('value', ustr('v'))]),
+    ('map-set', [], [('key', ustr('k')), ('value', ustr('v'))]),
+    ('map-set', [('map', [(ustr('a'), num(1))]), ustr('k')], [('value', ustr('v')), ('foo', num(1))]),
+    ('map-remove', [('map', [(ustr('a'), num(1))])], [('key', ustr('a'))]),
+    ('deep-merge', [], [('map1', ('map', [(ustr('a'), num(1))])), ('map2', ('map', [(ustr('b'), num(2))]))]),
+    ('deep-remove', [('map', [(ustr('a'), num(1))])], [('key', ustr('a'))]),
+    ('str-slice', [qstr('abcd')], [('end_at', num(3)), ('start_at', num(2))]),
+    ('str-slice', [qstr('abcd')], [('end-at', num(3))]),
+    ('str-slice', [qstr('abcd'), num(2)], [('end-at', num(3))]),
+    ('str-insert', [num(1)], [('index', num(2))]),
+    ('str-insert', [], [('string', qstr('abc')), ('insert', qstr('X')), ('index', num(2))]),
+    ('str-index', [], [('string', qstr('abc')), ('substring', qstr('b'))]),
+    ('split', [qstr('a,b,c'), qstr(',')], [('limit', num(1))]),
+    ('split', [qstr('a,b,c')], [('limit', num(1))]),
+    ('quote', [], [('string', ustr('a'))]),
+    ('slash', [], [('elements', lst([ustr('a'), ustr('b')]))]),
+    ('slash', [ustr('a'), ustr('b')], [('foo', ustr('c'))]),
+    ('slash', [ustr('a')], [('foo', ustr('c'))]),
+    ('zip', [lst([ustr('a'), ustr('b')])], [('foo', num(1))]),
+    # K14e: accepted although the documented signature does not allow them
+    ('join', [ustr('a'), ustr('b')], [('foo', num(1))]),
+    ('join', [lst([ustr('a'), ustr('b')]), lst([ustr('c'), ustr('d')]), ustr('comma')], [('separator', ustr('slash'))]),
+    ('append', [lst([ustr('a'), ustr('b')]), ustr('c')], [('val', ustr('d'))]),
+    ('str-slice', [qstr('abc'), num(1)], [('foo', num(2))]),
+    ('map-get', [('map', [(ustr('a'), ('map', [(ustr('b'), num(2))]))]), ustr('b')], [('key', ustr('a'))]),
+]
+# string.split with an empty string / separator, map.deep-remove through a missing key (round 3: as the code behaves)
+CORPUS += [
+    ('split', [qstr('abc'), qstr('')]),
+    ('split', [qstr('abc'), qstr(''), num(1)]),
+    ('split', [qstr('abc'), qstr(''), num(3)]),
+    ('split', [qstr('abc'), qstr(''), num(4)]),
+    ('split', [qstr('abc'), qstr(''), num(9)]),
+    ('split', [qstr(''), qstr(',')]),
+    ('split', [qstr(''), qstr('')]),
+    ('split', [qstr(''), qstr(''), num(1)]),
+    ('split', [qstr('é中a'), qstr('')]),
+    ('split', [qstr('aXbXc'), qstr('X'), num(1)]),
+    ('deep-remove', [('map', [(ustr('a'), num(1))]), ustr('z'), ustr('y')]),
+    ('deep-remove', [('map', [(ustr('a'), ('map', [(ustr('b'), num(1))]))]), ustr('a'), ustr('z'), ustr('y')]),
+    ('deep-remove', [('map', [(ustr('a'), ('map', [(ustr('b'), num(1))]))]), ustr('z'), ustr('q'), ustr('y')]),
+    ('str-slice', [qstr('abcdef'), num(4), num(2)]),
+    ('str-slice', [qstr('abcdef'), num(-1), num(-3)]),
+    ('quote', [qstr('a b')]),
+    ('unquote', [num(1)]),
+    ('to-upper-case', [qstr('ßäé')]),
+    ('set-nth', [lst([ustr('a'), ustr('b'), ustr('c')]), num(-3), ustr('z')]),
+    ('zip', [lst([num(1), num(2), num(3)]), lst([ustr('a')], 'comma'), lst([], 'undecided')]),
+    ('slash', [lst([ustr('a'), ustr('b')], 'comma')]),
+    ('slash', [ustr('a')]),
+    ('append', [lst([ustr('a')], 'comma'), ustr('b')]),
+    ('append', [lst([ustr('a')], 'undecided', True), ustr('b')]),
+]
+
+
 def known_tag(f, args):
     """which repaired deviation a now≠before-fix call belongs to (descriptive only: nothing is suppressed)"""
     if f == 'append':
@@ -1308,14 +1526,29 @@ def observe(pool, items, batch=150):
 
 
 def is_call(a):
-    return isinstance(a, tuple) and len(a) == 3 and a[0] == 'call'
+    return isinstance(a, tuple) and len(a) in (3, 4) and a[0] == 'call'
+
+
+def node_named(n):
+    """named arguments [(name, value)…] of a call node ('call', f, positional[, named])"""
+    return list(n[3]) if len(n) == 4 else []
+
+
+def named_enc(named):
+    """named arguments as one map value (name ↦ value) for `blt callN`"""
+    return enc(('map', [(ustr(k), v) for k, v in named]))
+
+
+def args_src(node, module):
+    parts = [expr_src(a, module) for a in node[2]] + [f"${k}: {src(v)}" for k, v in node_named(node)]
+    return ', '.join(parts)
 
 
 def expr_src(node, module):
     """source of an expression tree: ('call', fname, [argument…]) with values or further calls as arguments"""
     if is_call(node):
         name = MODULE[node[1]] if module else node[1]
-        return name + '(' + ', '.join(expr_src(a, module) for a in node[2]) + ')'
+        return name + '(' + args_src(node, module) + ')'
     return src(node)
 
 
@@ -1420,7 +1653,11 @@ def model_eval(tops, variant):
                 continue
             vals = [res[id(a)][1] if is_call(a) else a for a in n[2]]
             ready.append(n)
-            lines.append(f"blt call {variant} {n[1]} {len(vals)} " + " ".join(enc(v) for v in vals))
+            nm = node_named(n)
+            if nm:
+                lines.append(f"blt callN {variant} {n[1]} {len(vals)} " + " ".join([enc(v) for v in vals] + [named_enc(nm)]))
+            else:
+                lines.append(f"blt call {variant} {n[1]} {len(vals)} " + " ".join(enc(v) for v in vals))
         outs = driver(lines) if lines else []
         for n, o in zip(ready, outs):
             res[id(n)] = model_obs(o)
@@ -1451,8 +1688,10 @@ def case_text(f, args):
 def build_probes(cases):
     """every call node of every case (intermediate results included) becomes a probe, plus, for each list-valued
     result the model knows and that has a literal spelling, `E == literal` and `literal == E`."""
-    tops = [('call', f, list(args)) for f, args in cases]
+    tops = [(('call', c[0], list(c[1]), list(c[2])) if len(c) > 2 and c[2] else ('call', c[0], list(c[1]))) for c in cases]
     now, old = model_eval(tops, 'now'), model_eval(tops, 'beforefix')
+    named_tops = [t for t in tops if node_named(t)]
+    strict = model_eval(named_tops, 'strict') if named_tops else {}
     probes, seen, eqs = [], set(), []
     for t in tops:
         for n in postorder(t):
@@ -1464,6 +1703,16 @@ def build_probes(cases):
             texts = [tm] if mo else [expr_src(n, False), tm]
             p = {"f": n[1], "node": n, "texts": texts, "now": now[id(n)], "old": old[id(n)], "kind": "call",
                  "nested": any(is_call(a) for a in n[2]), "inner": n is not t}
+            nm = node_named(n)
+            if nm:
+                p["main"] = tm
+                p["strict"] = strict[id(n)]
+                p["shape"] = named_shape(n[1], n[2], nm)
+                eqv = positional_equivalent(n[1], n[2], nm)
+                if eqv is not None and p["strict"][0] == 'ok':
+                    # the same call with every argument by position: grass must answer the same (named = positional)
+                    p["texts"] = texts + [expr_src(('call', n[1], eqv), mo)]
+                    p["positional"] = True
             probes.append(p)
             m = p["now"]
             if m[0] == 'ok' and m[1][0] == 'list':
@@ -1527,7 +1776,7 @@ def evaluate(ck, pool, cases, direct_only=False):
     failing = []
     for i, p in enumerate(probes):
         m, d, f = p["now"], p["old"], p["f"]
-        text = p["texts"][-1]
+        text = p.get("main") or p["texts"][-1]
         args = p["node"][2]
         if m[0] == 'unsupported':
             ck.cov["unsupported_dropped"] += 1
@@ -1562,7 +1811,23 @@ def evaluate(ck, pool, cases, direct_only=False):
                 return q[0] == 'ok' and same_obs(q[1], mm[1])
             return q[0] == 'err' and q[1] == mm[1]
         names_agree = all(agrees(q, m) for q in per)
-        if len(per) == 2:
+        if "strict" in p:
+            ck.hist("named:" + p["shape"])
+            ck.hist("named-fn:" + f)
+            if p.get("positional"):
+                ck.hist("named: compared with the all-positional call")
+            st = p["strict"]
+            ck.hist("named-documented:" + (st[0] if st[0] != 'err' else 'err:' + st[1]))
+            if st[0] == 'err' and st[1] in ('no-named-arg', 'dup-arg') and any(q[0] == 'ok' for q in per):
+                failing.append({"call": text, "why": "a named argument the documented signature does not allow ("
+                                + st[1] + ") is accepted", "impl": [list(q[:2]) for q in per],
+                                "tags": ["K14e-named-unchecked"]})
+        if len(per) >= 2 and "strict" in p:
+            if len({(q[0], json.dumps(q[1], sort_keys=True, default=str)) for q in per}) != 1:
+                ck.hist("named≠positional or module≠global")
+                failing.append({"call": " ; ".join(p["texts"]), "why": "the spellings of one call (global / module member / all-positional) differ",
+                                "impl": [list(q[:2]) for q in per], "tags": []})
+        elif len(per) == 2:
             same_names = (per[0][0] == per[1][0]) and (per[0][1] == per[1][1])
             if not same_names:
                 ck.hist("module≠global")
@@ -1664,13 +1929,59 @@ def gen_law(g):
                      'slice_concat', 'length_slice', 'slice_neg', 'slice_neg', 'length_insert', 'index_slice', 'unquote_quote',
                      'eq_literal', 'eq_literal', 'eq_literal', 'has_key_index', 'has_key_index', 'get_set_path',
                      'set_other_path', 'set_other_path', 'set_other_path', 'case_ascii', 'deep_merge_get',
-                     'get_merge', 'keys_merge', 'get_set', 'remove_get', 'deep_merge_get'])
+                     'get_merge', 'keys_merge', 'get_set', 'remove_get', 'deep_merge_get',
+                     'index_first', 'index_first', 'split_join', 'split_join', 'deep_remove', 'deep_remove', 'has_key_path'])
     S = src
     if name == 'length_append':
         l, v = listish_for_law(g), simple_value(g)
         ex = [f"length({S(l)})", f"length(append({S(l)}, {S(v)}))"]
         tag = None
         return name, ex, lambda vs: "blt law length_append 2 " + " ".join(map(enc, vs)), tag
+    if name == 'index_first':
+        l = listish_for_law(g)
+        if l[0] == 'arglist':
+            l = simple_list(g)
+        es = as_list(l)
+        if es and r.random() < 0.7:
+            v = r.choice(es)
+            if v[0] == 'str' and r.random() < 0.3:
+                v = sanitize_str(('str', v[1], not v[2]))
+        else:
+            v = simple_value(g)
+        v = sanitize_str(v)
+        ex = [S(l), S(v), f"index({S(l)}, {S(v)})"]
+        return name, ex, lambda vs: "blt law index_first 3 " + " ".join(map(enc, vs)), None
+    if name == 'split_join':
+        s = g.string()
+        sep = sanitize_str(g.substring_of(s)) if r.random() < 0.75 else g.string()
+        if r.random() < 0.15:
+            sep = qstr('')
+        if r.random() < 0.08:
+            s = qstr('')
+        lim = r.choice([None, None, 1, 2, 3, len(s[1]) + 1])
+        ex = [S(s), S(sep), f"string.split({S(s)}, {S(sep)}" + (f", {lim})" if lim else ")")]
+        return name, ex, lambda vs: f"blt law split_join {lim if lim else 'none'} " + " ".join(map(enc, vs)), None
+    if name == 'deep_remove':
+        m = abc_map(g, r.choice([1, 2, 2, 3]))
+        ks = abc_path(g, 1, 4)
+        for _ in range(20):
+            pth = ks[:r.randint(0, len(ks) - 1)] + abc_path(g, 1, 2)
+            if not prefix_related(pth, ks):
+                break
+        else:
+            pth = [ustr('zz')]
+        path, pp = ", ".join(S(x) for x in ks), ", ".join(S(x) for x in pth)
+        rem = f"map.deep-remove({S(m)}, {path})"
+        ex = [f"map-get({rem}, {path})", f"map-get({S(m)}, {pp})", f"map-get({rem}, {pp})"]
+        return name, ex, lambda vs: "blt law deep_remove 3 " + " ".join(map(enc, vs)), None
+    if name == 'has_key_path':
+        # nested has-key against index(map-keys(<the nested map the path leads to>), last key)
+        m = abc_map(g, r.choice([2, 2, 3]))
+        ks = abc_path(g, 2, 4)
+        init, last = ", ".join(S(x) for x in ks[:-1]), S(ks[-1])
+        sub = f"map-get({S(m)}, {init})"
+        ex = [f"map-has-key({S(m)}, {init}, {last})", f"if(ismap({sub}), index(map-keys(if(ismap({sub}), {sub}, ())), {last}), null)"]
+        return 'has_key_index', ex, lambda vs: "blt law has_key_index 2 " + " ".join(map(enc, vs)), None
     if name == 'nth_set_nth':
         l = simple_list(g, 1) if r.random() < 0.8 else simple_map(g, 1)
         n = len(as_list(l))
@@ -1888,12 +2199,36 @@ def run_laws(ck, pool, n):
     return failing
 
 
-SIZES = {"quick": (5000, 2000, 1500, 1200), "thorough": (100000, 30000, 30000, 20000)}
+def check_tables(ck):
+    """the dispatch tables of the model (regenerated from builtin/functions/*.rs and builtin/modules/*.rs) resolve every
+    global name and every module member this check calls to the model function it is compared with"""
+    lines, want = [], []
+    for f in FUNCS:
+        mod, mem = MODULE[f].split('.', 1)
+        lines.append(f"blt resolve member {mod} {mem}")
+        want.append(f)
+        if f not in MODULE_ONLY:
+            lines.append(f"blt resolve global {f}")
+            want.append(f)
+    for f in MODULE_ONLY:
+        lines.append(f"blt resolve global {f}")
+        want.append(None)
+    outs = driver(lines)
+    for l, w, o in zip(lines, want, outs):
+        ck.count(('table', l), True)
+        ck.hist("dispatch-table:" + ("member" if " member " in l else "global") + (" (absent, as expected)" if w is None else ""))
+        if o != ("none" if w is None else "ok " + w):
+            ck.cov["model_disagreements"] += 1
+            ck.disagreements.append({"call": l, "model_now": o, "impl": "expected " + str(w)})
+    return []
 
 
-def gen_cases(ck, n, n_nested=0, n_abc=0):
+SIZES = {"quick": (5000, 2400, 1500, 1200, 1800), "thorough": (100000, 36000, 30000, 20000, 30000)}
+
+
+def gen_cases(ck, n, n_nested=0, n_abc=0, n_named=0):
     g = Gen(ck.rng)
-    cases = list(CORPUS)
+    cases = list(CORPUS) + list(CORPUS_NAMED)
     per = max(1, n // len(FUNCS))
     for f in FUNCS:
         for _ in range(per):
@@ -1902,13 +2237,23 @@ def gen_cases(ck, n, n_nested=0, n_abc=0):
         cases.append(gen_nested(g))
     for _ in range(n_abc):
         cases.append(gen_abc(g))
+    for _ in range(n_named):
+        cases.append(gen_named(g))
     return cases
 
 
 def run(tier, seed):
     ck = Check("C14", tier, seed)
     ck.disagreements = []
-    ck.cov["rule"] = ("calls of 28 built-ins (9 list + list.slash, 9 map, 9 string) with generated positional arguments: lists of "
+    ck.cov["rule"] = ("round 3: calls with NAMED arguments (a generated positional call whose tail or all of it is passed by name, in order "
+                      "or shuffled, `_` for `-`; an optional parameter in between left out; a name that is no parameter; a parameter "
+                      "by position and by name; nested map-merge/map.set with the last arguments named) are evaluated by the model "
+                      "(`blt callN`, parameter names read from the model's own table) and by grass under the global name, the module "
+                      "member name and, where the names are parameters not given by position, as the all-positional call - all "
+                      "spellings must agree with the model and with each other; string.split with empty string/separator and "
+                      "map.deep-remove through a missing key are generated; the model's dispatch tables (regenerated from the Rust "
+                      "`declare` functions) must resolve every global/member name called here to the model function compared. "
+                      "calls of 28 built-ins (9 list + list.slash, 9 map, 9 string) with generated positional arguments: lists of "
                       "length 0-6 over space/comma/slash/undecided x bracketed, scalars, maps and argument lists in list "
                       "position, indices -8..8, near-integers, fractions, with units, wrongly typed, missing and extra arguments; "
                       "nested maps with key paths mostly along existing entries; strings over ASCII, é, e+U+0301, 中, U+1F600. "
@@ -1922,23 +2267,32 @@ def run(tier, seed):
                       "list-valued result that has a literal spelling, `E == literal` and `literal == E` are probes too (expected "
                       "answer from the model's veq). A probe is distinct by its expression text and non-trivial when the call has "
                       "at least one argument; law cases are distinct by their expressions.")
-    ck.assumptions = ["named arguments are outside the model (positional calls only)",
+    ck.assumptions = ["named arguments: the documented variant (an error for a name that is no parameter or for a parameter given "
+                      "twice) is judged only as 'error expected'; the nested forms of map-merge/map.set with named arguments are "
+                      "compared as the code resolves them (documented variant: unsupported)",
                       "map.deep-remove with a missing last intermediate key and string.split with an empty string or separator "
-                      "are not settled by the documentation and are excluded (driver answers unsupported)",
+                      "are not settled by the documentation; they are modelled and compared as the code behaves",
                       "grass's answers are read through inspect(); the printer is re-implemented in tools/props/c14.py (show) and "
                       "the model's value is compared as printed text plus the four structural pins"]
     import time
     t0 = time.time()
+    import translate_module_aliases
+    tok, tmsg = translate_module_aliases.main()          # Grass/Generated/ModuleAliases.lean from the Rust `declare` functions
+    ck.notes.append("translate_module_aliases: " + tmsg)
     ck.do_prove(cores=("blt",))
     t1 = time.time()
+    if not tok:
+        ck.unproved("correspondence-broken", {"why": "tools/translate_module_aliases.py could not read the built-in tables", "message": tmsg})
+        return ck.finish()
     if not ck.do_build_runner():
         ck.unproved("correspondence-broken", {"why": "runner does not build against /repo", "error": getattr(ck, "build_error", "")})
         return ck.finish()
     pool = RunnerPool()
-    n_calls, n_laws, n_nested, n_abc = SIZES[tier]
+    n_calls, n_laws, n_nested, n_abc, n_named = SIZES[tier]
     t2 = time.time()
-    cases = gen_cases(ck, n_calls, n_nested, n_abc)
-    failing = evaluate(ck, pool, cases)
+    failing0 = check_tables(ck)
+    cases = gen_cases(ck, n_calls, n_nested, n_abc, n_named)
+    failing = failing0 + evaluate(ck, pool, cases)
     t3 = time.time()
     failing += run_laws(ck, pool, n_laws)
     t4 = time.time()
@@ -1947,7 +2301,7 @@ def run(tier, seed):
     unknown = [f for f in failing if not f["tags"]]
     if (not ck.proof["ok"] or ck.cov["model_disagreements"]) and not unknown and tier == "quick":
         log("[C14] proof or correspondence broken: enlarging the search")
-        extra = gen_cases(ck, 25000, 6000, 6000)[len(CORPUS):]
+        extra = gen_cases(ck, 25000, 6000, 6000, 6000)[len(CORPUS) + len(CORPUS_NAMED):]
         failing += evaluate(ck, pool, extra, direct_only=True)
         failing += run_laws(ck, pool, 8000)
     failing.sort(key=lambda f: (bool(f["tags"]), len(f["call"])))
